@@ -71,6 +71,18 @@ def run(chk, replay=None):
         chk.assumptions += ["DES, HMAC-SHA1 are the Go standard library's (trusted Prim terms); MD4, UTF-16LE, case mapping, key spreading are the specification's own",
                             "case mapping checked on ASCII and a table of 1:1 pairs only",
                             "LM on 7-bit ASCII passwords, as the property states"]
+        # ---- ValueSemantics.tla: "for every input" = in any history; results are values (the design-level statement behind the
+        # history layers of the harness: Retain, ReusedInput/arena pass, overwritten inputs, reverse-order pass, reused receivers)
+        vs = dict(POOLED="FALSE", ALIAS="FALSE", CACHE="FALSE", KEEP="FALSE")
+        chk.add_tlc("value_semantics", vlib.run_tlc("ValueSemantics", vlib.cfg("VS_values.cfg", **vs), timeout=300))
+        if chk.tier == "thorough":
+            refuted = {}
+            for dev in vs:
+                g = vlib.run_tlc("ValueSemantics", vlib.cfg("VS_values.cfg", **dict(vs, **{dev: "TRUE"})), allow_violation=True, timeout=300)
+                refuted[dev] = g.violation
+                if g.violation != "Inv":
+                    raise vlib.Infra("vacuity guard: ValueSemantics deviation %s not refuted" % dev)
+            chk.part("value_semantics_deviations_refuted", **refuted)
     finally:
         shutil.rmtree(d, ignore_errors=True)
 
